@@ -895,11 +895,12 @@ def expand_repo(repo, known: set | None = None):
     for mi in repo.modules.values():
         for name, node in mi.defs.items():
             if isinstance(node, ast.FunctionDef):
-                todo.append((node, mi, None, f"{mi.name}.{name}"))
+                todo.append((node, mi, None, repo.canonical(f"{mi.name}.{name}", node)))
             elif isinstance(node, ast.ClassDef):
                 for ch in node.body:
                     if isinstance(ch, ast.FunctionDef):
-                        todo.append((ch, mi, f"{mi.name}.{name}", f"{mi.name}.{name}.{ch.name}"))
+                        cqn = repo.canonical(f"{mi.name}.{name}", node)
+                        todo.append((ch, mi, cqn, f"{cqn}.{ch.name}"))
     for fn, mi, cq, q in todo:
         try:
             ex.expand_function(fn, mi, cq, q)
